@@ -938,8 +938,13 @@ class RetrySender(object):
         self.pkt_type = pkt_type
         self.payload = payload
         self.callback = callback
+        self.done = False
 
     def __call__(self, success):
+        # the message can be in flight in more than one datagram:
+        # report the first ack only, and stop re-trying afterwards
+        if self.done:
+            return
         # keep re-trying until it succeeds
         if not success:
 
@@ -948,8 +953,10 @@ class RetrySender(object):
 
             self.conn.outgoing_messages.append(msg)
 
-        elif self.callback:
-            self.callback(True)
+        else:
+            self.done = True
+            if self.callback:
+                self.callback(True)
 
 class Bytes(bytes):
     seq = SeqNum()
